@@ -11,6 +11,8 @@ pub mod c08;
 pub mod c09;
 pub mod c13;
 pub mod c15;
+pub mod c20;
+pub mod c11;
 
 pub fn run(engine: &str, ctx: &Ctx, rep: &mut Report) -> bool {
     match engine {
@@ -26,6 +28,9 @@ pub fn run(engine: &str, ctx: &Ctx, rep: &mut Report) -> bool {
         "c13" => c13::run_c13(ctx, rep),
         "c14" => c13::run_c14(ctx, rep),
         "c15" => c15::run(ctx, rep),
+        "c20" => c20::run(ctx, rep),
+        "c11" => c11::run_c11(ctx, rep),
+        "c12" => c11::run_c12(ctx, rep),
         _ => return false,
     }
     true
